@@ -252,4 +252,361 @@ theorem lexRead_space (F : Nat) (s : Scan) (c : UInt8) (r : List UInt8) (hc : is
   conv => lhs; unfold lexRead
   simp [Views.cons_eof h, Views.cons_cur h, h1]
 
+/-! ### Ref / Symbol bodies -/
+
+/-- `is_alpha_num() || is_any_of("~:-._")` -/
+def refByte (b : UInt8) : Bool := isDigitB b || isLowerB b || isUpperB b || isRefPunct b
+
+theorem isRefCont_eq (s : Scan) : (s.isAlphaNum || isRefPunct s.cur) = refByte s.cur := by
+  simp [Scan.isAlphaNum, Scan.isDigit, Scan.isLower, Scan.isUpper, refByte]
+
+def NoRefHead (v : List UInt8) : Prop :=
+  match v with
+  | [] => True
+  | b :: _ => refByte b = false
+
+theorem refLoop_pass (w : List UInt8) (hw : ∀ b ∈ w, refByte b = true) (rest : List UInt8)
+    (hrest : NoRefHead rest) :
+    ∀ (fuel : Nat) (s : Scan) (acc : List UInt8), Views s (w ++ rest) → w.length < fuel →
+      ∃ s', refLoop fuel s acc = .ok (acc ++ w, s') ∧ Views s' rest := by
+  induction w with
+  | nil =>
+    intro fuel s acc hs hf
+    cases fuel with
+    | zero => omega
+    | succ n =>
+      unfold refLoop
+      cases rest with
+      | nil =>
+        have := Views.nil_eof hs
+        simp [this]
+        exact hs
+      | cons b r =>
+        simp only [List.nil_append] at hs
+        have hc := Views.cons_cur hs
+        have he := Views.cons_eof hs
+        have : (s.isAlphaNum || isRefPunct s.cur) = false := by rw [isRefCont_eq, hc]; exact hrest
+        simp [he, this]
+        exact hs
+  | cons a w ih =>
+    intro fuel s acc hs hf
+    cases fuel with
+    | zero => omega
+    | succ n =>
+      simp only [List.cons_append] at hs
+      have hc := Views.cons_cur hs
+      have he := Views.cons_eof hs
+      have ha : refByte a = true := hw a (by simp)
+      have : (s.isAlphaNum || isRefPunct s.cur) = true := by rw [isRefCont_eq, hc]; exact ha
+      unfold refLoop
+      simp only [he, this, Bool.not_false, Bool.and_self, if_true]
+      obtain ⟨s', h1, h2⟩ := ih (fun b hb => hw b (by simp [hb])) n s.advance (acc ++ [s.cur]) hs.advance (by simp at hf; omega)
+      refine ⟨s', ?_, h2⟩
+      rw [h1, hc]; simp
+
+theorem refByte_facts : ∀ c : UInt8, (!refByte c || (decide (c < 128) && !isWsB c)) = true := by
+  apply forall_u8
+  decide +kernel
+
+theorem refByte_lt {c : UInt8} (h : refByte c = true) : c < 128 := by
+  have := refByte_facts c
+  simp only [h, Bool.not_true, Bool.false_or, Bool.and_eq_true, decide_eq_true_eq] at this
+  exact this.1
+
+/-- a Ref id / Symbol body as the Zinc readers accept it: ASCII over `[A-Za-z0-9~:._-]`, not empty -/
+def RefSeg (seg : List Char) : Prop :=
+  seg = (segBytes seg).map chr ∧ segBytes seg ≠ [] ∧ (segBytes seg).all refByte = true
+
+instance (seg : List Char) : Decidable (RefSeg seg) := by unfold RefSeg; exact inferInstance
+
+/-- a Symbol body starts with a lower-case letter -/
+def SymSeg (seg : List Char) : Prop :=
+  RefSeg seg ∧ (match segBytes seg with | b :: _ => isLowerB b | [] => false) = true
+
+instance (seg : List Char) : Decidable (SymSeg seg) := by unfold SymSeg; exact inferInstance
+
+theorem RefSeg.all {seg : List Char} (h : RefSeg seg) : ∀ b ∈ segBytes seg, refByte b = true := by
+  have := h.2.2; simpa [List.all_eq_true] using this
+
+theorem RefSeg.enc {seg : List Char} (h : RefSeg seg) : encChars seg = segBytes seg := by
+  have := encChars_ascii (segBytes seg) (fun b hb => refByte_lt (h.all b hb))
+  rw [← h.1] at this; exact this
+
+theorem RefSeg.lossy {seg : List Char} (h : RefSeg seg) : lossy (segBytes seg) = seg := by
+  rw [lossy_ascii _ (fun b hb => refByte_lt (h.all b hb))]; exact h.1.symm
+
+example : RefSeg "p:demo:r:2a9f-1b".toList := by decide
+example : SymSeg "hot-water".toList := by decide
+
+/-- `^sym` followed by the end of the input or a byte outside the symbol alphabet -/
+theorem lexRead_sym (sym : List Char) (hsym : SymSeg sym) (rest : List UInt8) (hrest : NoRefHead rest)
+    (fuel : Nat) (s : Scan) (hs : Views s (94 :: (segBytes sym ++ rest))) (hf : (segBytes sym).length + 3 ≤ fuel) :
+    ∃ s', lexRead fuel s = .ok s' (.val (.sym sym)) ∧ Views s' rest := by
+  obtain ⟨F, rfl⟩ : ∃ F, fuel = F + 1 := ⟨fuel - 1, by omega⟩
+  have hadv := hs.advance
+  obtain ⟨s', h1, h2⟩ := refLoop_pass (segBytes sym) hsym.1.all rest hrest F s.advance [] hadv (by omega)
+  refine ⟨s', ?_, h2⟩
+  have hlow : s.advance.isLower = true := by
+    have h3 := hsym.2
+    cases hb : segBytes sym with
+    | nil => rw [hb] at h3; simp at h3
+    | cons b r =>
+      rw [hb] at h3 hadv
+      simp only [List.cons_append] at hadv
+      simp only [Scan.isLower, Views.cons_cur hadv]; exact h3
+  unfold lexRead
+  simp only [Views.cons_eof hs, Views.cons_cur hs]
+  have e : ∀ k : UInt8, k ≠ 94 → ((94 : UInt8) == k) = false := by intro k hk; simp; exact fun h => hk h.symm
+  simp only [Bool.false_eq_true, if_false, e 10 (by decide), e 13 (by decide), e 9 (by decide), e 32 (by decide),
+    e 34 (by decide), e 96 (by decide), e 64 (by decide), Bool.or_self, beq_self_eq_true, if_true]
+  unfold parseSymbol
+  simp only [Views.cons_cur hs, bne_self_eq_false, Bool.false_eq_true, if_false, hlow, Bool.not_true]
+  rw [h1]
+  simp only [List.nil_append]
+  have hne : (segBytes sym).isEmpty = false := by
+    cases hb : segBytes sym with
+    | nil => exact absurd hb hsym.1.2.1
+    | cons b r => rfl
+  simp only [hne, Bool.false_eq_true, if_false, hsym.1.lossy]
+
+
+/-- the scanner has looked one byte ahead: it stands on a space, the first byte `c` of `T` is in the
+peek buffer (this is how `parse_ref` leaves it when no display name follows) -/
+def Stashed (s : Scan) (T : List UInt8) : Prop :=
+  ∃ c r, T = c :: r ∧ s.eof = false ∧ s.cur = 32 ∧ s.stash = [c] ∧ s.inp = r
+
+/-- `peek` on a scanner positioned on `b :: c :: r` -/
+theorem Views.peek {s : Scan} {b c : UInt8} {r : List UInt8} (h : Views s (b :: c :: r)) :
+    s.peek.1 = some c ∧ s.peek.2.eof = false ∧ s.peek.2.cur = b ∧ s.peek.2.stash = [c] ∧ s.peek.2.inp = r := by
+  obtain ⟨hs, he, hc, hi⟩ := h
+  simp [Scan.peek, Scan.readByte, hs, hi, he, hc]
+
+/-- reading from the peek buffer -/
+theorem read_stashed {s : Scan} {c : UInt8} {r : List UInt8} (he : s.eof = false) (hst : s.stash = [c]) (hi : s.inp = r) :
+    s.read.1 = some c ∧ Views s.read.2 (c :: r) := by
+  simp [Scan.read, hst, Views, he, hi]
+
+/-- `@id` followed by the end of the input, or by one space and a byte that is not `"` -/
+theorem lexRead_ref (id : List Char) (hid : RefSeg id) (rest : List UInt8)
+    (hrest : rest = [] ∨ ∃ c r, rest = 32 :: c :: r ∧ (c == 34) = false)
+    (fuel : Nat) (s : Scan) (hs : Views s (64 :: (segBytes id ++ rest))) (hf : (segBytes id).length + 3 ≤ fuel) :
+    ∃ s', lexRead fuel s = .ok s' (.val (.ref id none)) ∧
+      ((rest = [] ∧ Views s' []) ∨ (∃ T, rest = 32 :: T ∧ Stashed s' T)) := by
+  obtain ⟨F, rfl⟩ : ∃ F, fuel = F + 1 := ⟨fuel - 1, by omega⟩
+  have hadv := hs.advance
+  have hno : NoRefHead rest := by
+    rcases hrest with h | ⟨c, r, h, _⟩ <;> subst h <;> simp [NoRefHead]; decide
+  obtain ⟨s1, h1, h2⟩ := refLoop_pass (segBytes id) hid.all rest hno F s.advance [] hadv (by omega)
+  have hne : (segBytes id).isEmpty = false := by
+    cases hb : segBytes id with
+    | nil => exact absurd hb hid.2.1
+    | cons b r => rfl
+  have e : ∀ k : UInt8, k ≠ 64 → ((64 : UInt8) == k) = false := by intro k hk; simp; exact fun h => hk h.symm
+  rcases hrest with h | ⟨c, r, h, hc⟩
+  · subst h
+    refine ⟨s1, ?_, Or.inl ⟨rfl, h2⟩⟩
+    unfold lexRead
+    simp only [Views.cons_eof hs, Views.cons_cur hs]
+    simp only [Bool.false_eq_true, if_false, e 10 (by decide), e 13 (by decide), e 9 (by decide), e 32 (by decide),
+      e 34 (by decide), e 96 (by decide), Bool.or_self, beq_self_eq_true, if_true]
+    unfold parseRef
+    simp only [Views.cons_cur hs, bne_self_eq_false, Bool.false_eq_true, if_false, h1, List.nil_append, hne, hid.lossy]
+    simp [Views.nil_eof h2]
+  · subst h
+    have hp := Views.peek h2
+    refine ⟨s1.peek.2, ?_, Or.inr ⟨c :: r, rfl, c, r, rfl, hp.2.1, ?_, hp.2.2.2.1, hp.2.2.2.2⟩⟩
+    · unfold lexRead
+      simp only [Views.cons_eof hs, Views.cons_cur hs]
+      simp only [Bool.false_eq_true, if_false, e 10 (by decide), e 13 (by decide), e 9 (by decide), e 32 (by decide),
+        e 34 (by decide), e 96 (by decide), Bool.or_self, beq_self_eq_true, if_true]
+      unfold parseRef
+      simp only [Views.cons_cur hs, bne_self_eq_false, Bool.false_eq_true, if_false, h1, List.nil_append, hne, hid.lossy]
+      simp only [Views.cons_eof h2, Views.cons_cur h2, Bool.not_false, beq_self_eq_true, Bool.and_self, if_true]
+      cases hpk : s1.peek with
+      | mk o s2 =>
+        rw [hpk] at hp
+        simp only at hp
+        rw [hp.1]
+        simp only [hc, Bool.false_eq_true, if_false]
+    · exact hp.2.2.1
+
+/-! ### operators -/
+
+/-- `greater_or_less` on `<` / `>` followed by a space, and on `<=` / `>=` -/
+theorem gol_single (s : Scan) (b : UInt8) (r : List UInt8) (t0 t1 : FTok) (hs : Views s (b :: 32 :: r)) :
+    ∃ s', greaterOrLess s t0 t1 = .ok s' t0 ∧ Views s' (32 :: r) := by
+  have hp := Views.peek hs
+  have hrd := read_stashed hp.2.1 hp.2.2.2.1 hp.2.2.2.2
+  refine ⟨s.peek.2.advance, ?_, hrd.2⟩
+  unfold greaterOrLess
+  cases hpk : s.peek with
+  | mk o s1 =>
+    rw [hpk] at hp
+    simp only at hp
+    rw [hp.1]
+    simp
+
+theorem gol_double (s : Scan) (b : UInt8) (r : List UInt8) (t0 t1 : FTok) (hs : Views s (b :: 61 :: r)) :
+    ∃ s', greaterOrLess s t0 t1 = .ok s' t1 ∧ Views s' r := by
+  have hp := Views.peek hs
+  have hrd := read_stashed hp.2.1 hp.2.2.2.1 hp.2.2.2.2
+  refine ⟨s.peek.2.read.2.advance, ?_, hrd.2.advance⟩
+  unfold greaterOrLess
+  cases hpk : s.peek with
+  | mk o s1 =>
+    rw [hpk] at hp hrd
+    simp only at hp hrd
+    rw [hp.1]
+    simp only [beq_self_eq_true, if_true]
+    cases hr2 : s1.read with
+    | mk o2 s2 =>
+      rw [hr2] at hrd
+      simp only at hrd
+      rw [hrd.1]
+
+
+def opTok : CmpOp → FTok
+  | .eq => .eq | .ne => .ne | .lt => .lt | .le => .le | .gt => .gt | .ge => .ge
+
+/-- a comparison operator followed by a space -/
+theorem lexRead_op (op : CmpOp) (r : List UInt8) (F : Nat) (s : Scan) (hs : Views s (printOp op ++ 32 :: r)) :
+    ∃ s', lexRead (F + 1) s = .ok s' (opTok op) ∧ Views s' (32 :: r) := by
+  cases op with
+  | eq =>
+    simp only [printOp, List.cons_append, List.nil_append] at hs
+    have hr := hs.read
+    refine ⟨s.read.2.advance, ?_, hr.2.advance⟩
+    unfold lexRead
+    simp only [Views.cons_eof hs, Views.cons_cur hs]
+    have e : ∀ k : UInt8, k ≠ 61 → ((61 : UInt8) == k) = false := by intro k hk; simp; exact fun h => hk h.symm
+    simp only [Bool.false_eq_true, if_false, e 10 (by decide), e 13 (by decide), e 9 (by decide), e 32 (by decide),
+      e 34 (by decide), e 96 (by decide), e 64 (by decide), e 94 (by decide), e 45 (by decide), e 40 (by decide),
+      e 41 (by decide), Bool.or_self, isDigitB, beq_self_eq_true, if_true]
+    cases hrd : s.read with
+    | mk o s1 =>
+      rw [hrd] at hr
+      simp only at hr
+      have : o = some 61 := by simpa using hr.1
+      subst this
+      simp [Views.cons_cur hr.2, opTok]
+  | ne =>
+    simp only [printOp, List.cons_append, List.nil_append] at hs
+    have hr := hs.read
+    refine ⟨s.read.2.advance, ?_, hr.2.advance⟩
+    unfold lexRead
+    simp only [Views.cons_eof hs, Views.cons_cur hs]
+    have e : ∀ k : UInt8, k ≠ 33 → ((33 : UInt8) == k) = false := by intro k hk; simp; exact fun h => hk h.symm
+    simp only [Bool.false_eq_true, if_false, e 10 (by decide), e 13 (by decide), e 9 (by decide), e 32 (by decide),
+      e 34 (by decide), e 96 (by decide), e 64 (by decide), e 94 (by decide), e 45 (by decide), e 40 (by decide),
+      e 41 (by decide), e 61 (by decide), Bool.or_self, isDigitB, beq_self_eq_true, if_true]
+    cases hrd : s.read with
+    | mk o s1 =>
+      rw [hrd] at hr
+      simp only at hr
+      have : o = some 61 := by simpa using hr.1
+      subst this
+      simp [Views.cons_cur hr.2, opTok]
+  | lt =>
+    simp only [printOp, List.cons_append, List.nil_append] at hs
+    obtain ⟨s', h1, h2⟩ := gol_single s 60 r .lt .le hs
+    refine ⟨s', ?_, h2⟩
+    unfold lexRead
+    simp only [Views.cons_eof hs, Views.cons_cur hs]
+    have e : ∀ k : UInt8, k ≠ 60 → ((60 : UInt8) == k) = false := by intro k hk; simp; exact fun h => hk h.symm
+    simp only [Bool.false_eq_true, if_false, e 10 (by decide), e 13 (by decide), e 9 (by decide), e 32 (by decide),
+      e 34 (by decide), e 96 (by decide), e 64 (by decide), e 94 (by decide), e 45 (by decide), e 40 (by decide),
+      e 41 (by decide), e 61 (by decide), e 33 (by decide), Bool.or_self, isDigitB, beq_self_eq_true, if_true]
+    rw [h1]; rfl
+  | le =>
+    simp only [printOp, List.cons_append, List.nil_append] at hs
+    obtain ⟨s', h1, h2⟩ := gol_double s 60 (32 :: r) .lt .le hs
+    refine ⟨s', ?_, h2⟩
+    unfold lexRead
+    simp only [Views.cons_eof hs, Views.cons_cur hs]
+    have e : ∀ k : UInt8, k ≠ 60 → ((60 : UInt8) == k) = false := by intro k hk; simp; exact fun h => hk h.symm
+    simp only [Bool.false_eq_true, if_false, e 10 (by decide), e 13 (by decide), e 9 (by decide), e 32 (by decide),
+      e 34 (by decide), e 96 (by decide), e 64 (by decide), e 94 (by decide), e 45 (by decide), e 40 (by decide),
+      e 41 (by decide), e 61 (by decide), e 33 (by decide), Bool.or_self, isDigitB, beq_self_eq_true, if_true]
+    rw [h1]; rfl
+  | gt =>
+    simp only [printOp, List.cons_append, List.nil_append] at hs
+    obtain ⟨s', h1, h2⟩ := gol_single s 62 r .gt .ge hs
+    refine ⟨s', ?_, h2⟩
+    unfold lexRead
+    simp only [Views.cons_eof hs, Views.cons_cur hs]
+    have e : ∀ k : UInt8, k ≠ 62 → ((62 : UInt8) == k) = false := by intro k hk; simp; exact fun h => hk h.symm
+    simp only [Bool.false_eq_true, if_false, e 10 (by decide), e 13 (by decide), e 9 (by decide), e 32 (by decide),
+      e 34 (by decide), e 96 (by decide), e 64 (by decide), e 94 (by decide), e 45 (by decide), e 40 (by decide),
+      e 41 (by decide), e 61 (by decide), e 33 (by decide), e 60 (by decide), Bool.or_self, isDigitB, beq_self_eq_true, if_true]
+    rw [h1]; rfl
+  | ge =>
+    simp only [printOp, List.cons_append, List.nil_append] at hs
+    obtain ⟨s', h1, h2⟩ := gol_double s 62 (32 :: r) .gt .ge hs
+    refine ⟨s', ?_, h2⟩
+    unfold lexRead
+    simp only [Views.cons_eof hs, Views.cons_cur hs]
+    have e : ∀ k : UInt8, k ≠ 62 → ((62 : UInt8) == k) = false := by intro k hk; simp; exact fun h => hk h.symm
+    simp only [Bool.false_eq_true, if_false, e 10 (by decide), e 13 (by decide), e 9 (by decide), e 32 (by decide),
+      e 34 (by decide), e 96 (by decide), e 64 (by decide), e 94 (by decide), e 45 (by decide), e 40 (by decide),
+      e 41 (by decide), e 61 (by decide), e 33 (by decide), e 60 (by decide), Bool.or_self, isDigitB, beq_self_eq_true, if_true]
+    rw [h1]; rfl
+
+
+/-- `*==` followed by a space -/
+theorem lexRead_weq (r : List UInt8) (F : Nat) (s : Scan) (hs : Views s (42 :: 61 :: 61 :: 32 :: r)) :
+    ∃ s', lexRead (F + 1) s = .ok s' .weq ∧ Views s' (32 :: r) := by
+  have hr1 := hs.read
+  have hr2 := hr1.2.read
+  have hr3 := hr2.2.read
+  refine ⟨s.read.2.read.2.read.2, ?_, hr3.2⟩
+  unfold lexRead
+  simp only [Views.cons_eof hs, Views.cons_cur hs]
+  have e : ∀ k : UInt8, k ≠ 42 → ((42 : UInt8) == k) = false := by intro k hk; simp; exact fun h => hk h.symm
+  simp only [Bool.false_eq_true, if_false, e 10 (by decide), e 13 (by decide), e 9 (by decide), e 32 (by decide),
+    e 34 (by decide), e 96 (by decide), e 64 (by decide), e 94 (by decide), e 45 (by decide), e 40 (by decide),
+    e 41 (by decide), e 61 (by decide), e 33 (by decide), e 60 (by decide), e 62 (by decide), Bool.or_self, isDigitB,
+    beq_self_eq_true, if_true]
+  cases hrd1 : s.read with
+  | mk o1 s1 =>
+    rw [hrd1] at hr1 hr2 hr3
+    simp only at hr1 hr2 hr3
+    have : o1 = some 61 := by simpa using hr1.1
+    subst this
+    simp only
+    unfold expectAndConsumeSeq
+    simp only [Views.cons_cur hr1.2, bne_self_eq_false, Bool.false_eq_true, if_false]
+    cases hrd2 : s1.read with
+    | mk o2 s2 =>
+      rw [hrd2] at hr2 hr3
+      simp only at hr2 hr3
+      have : o2 = some 61 := by simpa using hr2.1
+      subst this
+      simp only
+      unfold expectAndConsumeSeq
+      simp only [Views.cons_cur hr2.2, bne_self_eq_false, Bool.false_eq_true, if_false]
+      cases hrd3 : s2.read with
+      | mk o3 s3 =>
+        rw [hrd3] at hr3
+        simp only at hr3
+        have : o3 = some 32 := by simpa using hr3.1
+        subst this
+        simp [expectAndConsumeSeq]
+
+/-- a relation name: `name?` -/
+theorem lexRead_rel (name : List Char) (hname : IdSeg name) (r : List UInt8) (fuel : Nat) (s : Scan)
+    (hs : Views s (segBytes name ++ 63 :: r)) (hf : (segBytes name).length + 4 ≤ fuel) :
+    ∃ s', lexRead fuel s = .ok s' (.rel name) ∧ Views s' r := by
+  obtain ⟨F, rfl⟩ : ∃ F, fuel = F + 2 := ⟨fuel - 2, by omega⟩
+  obtain ⟨b, w, hb, hlow⟩ := segBytes_head hname
+  have hs' := hs
+  rw [hb] at hs'
+  simp only [List.cons_append] at hs'
+  rw [lexRead_lower (F + 1) s (Views.cons_eof hs') (by rw [Views.cons_cur hs']; exact hlow)]
+  obtain ⟨s1, h1, h2, _⟩ := parseId_seg name hname (63 :: r) (by simp [NoIdHead]; decide) (F + 1) s hs (by omega)
+  refine ⟨s1.advance, ?_, h2.advance⟩
+  unfold lexId
+  have hws : isWsB s1.cur = false := by rw [Views.cons_cur h2]; decide
+  simp only [h1, Views.cons_eof h2, Bool.false_eq_true, if_false, cws_noop _ s1 hws, Views.cons_cur h2,
+    beq_self_eq_true, if_true]
+
 end Hs.FText
